@@ -119,7 +119,8 @@ fn hostile_jitter_spec(rng: &mut Prng) -> Spec {
     }
     let est = super::c12::est_reads(&spec.ops, spec.rounds.unwrap_or(64) as u32) + spec.ops.iter().filter(|o| **o == Op::TestTimer).count() * 1601;
     let rate = rng.range(20, 400) as u32;
-    let (clock, marks) = gen_clock(rng, &ClockCfg { n: (est * 5 / 4 + 16).min(30_000), faults, rate_per_1000: rate, max_stretch: 3 , long_stuck: false});
+    let long_stuck = rng.chance(1, 40);
+    let (clock, marks) = gen_clock(rng, &ClockCfg { n: (est * 5 / 4 + 16).min(30_000), faults, rate_per_1000: rate, max_stretch: 3, long_stuck });
     spec.clock = Some(clock);
     spec.aux = encode_marks(&marks);
     spec.logger = rng.chance(1, 4);
